@@ -536,6 +536,7 @@ func runPass(r *mc.Run, pass string, coarse bool, bound int, budget time.Duratio
 
 func main() {
 	r := mc.Start("C17", "model_checking")
+	r.DisableStallWatchdog() // the harness workers are subprocesses; every pass has its own budget
 	seedv = r.Seed
 	root = r.Root
 	var err error
